@@ -229,6 +229,29 @@ def r20_6(ctx):
            'state.value = State.SHUTDOWN on every normal path')
 
 
+def r20_10(ctx):
+    ctx.rule('R20.10', 'every proxy that takes a reference takes its own: _incref tells the server and arms the matching '
+                       '_decref finalizer on every path (the server counts references per proxy, not per process)',
+             floor=3)
+    m = ctx.model
+    fi = m.func('managers:BaseProxy._incref')
+    cfg = fi.cfg
+    tells = [n for (n, c) in q.calls(fi, 'dispatch') if len(c.args) >= 3 and isinstance(c.args[2], ast.Constant)
+             and c.args[2].value == 'incref']
+    arms = [n for (n, c) in q.calls(fi, lambda t: t.endswith('Finalize'))
+            if len(c.args) >= 2 and ast.unparse(c.args[1]).endswith('._decref')]
+    q.need(tells and arms, 'BaseProxy._incref: incref dispatch / _decref finalizer not found')
+    ok = cfg.must_pass([cfg.entry], [cfg.exit], tells, skip_labels=('x',))[0]
+    ctx.ob('R20.10', '_incref:server-told-on-every-path', ok, fi, tells[0],
+           'dispatch(conn, None, \'incref\', ...) is unconditional' if ok else
+           'a path returns without telling the server: this proxy holds no reference of its own, and when the proxy '
+           'that does is released the server disposes of the object while this one still exists')
+    ok = cfg.must_pass([cfg.entry], [cfg.exit], arms, skip_labels=('x',))[0]
+    ctx.ob('R20.10', '_incref:decref-finalizer-armed-on-every-path', ok, fi, arms[0], 'util.Finalize(self, BaseProxy._decref, ...)')
+    ok = all(cfg.dominated_by(a, tells)[0] for a in arms)
+    ctx.ob('R20.10', '_incref:finalizer-only-after-the-reference-exists', ok, fi, arms[0], 'incref precedes arming _decref')
+
+
 def r20_7(ctx):
     ctx.rule('R20.7', 'every proxy, also one rebuilt without taking a reference, re-registers itself after a fork / '
                       'in a started child: the after-fork hook is installed on every path through BaseProxy.__init__',
@@ -253,6 +276,7 @@ def r20_7(ctx):
 
 
 def run(ctx):
+    r20_10(ctx)
     r20_7(ctx)
     # a generated proxy type is cached under everything it was generated from (type name and exposed methods)
     from .generic import memo_key_covers_inputs
@@ -274,6 +298,8 @@ def run(ctx):
 
 _M = 'billiard/managers.py'
 MUTANTS = [
+    ('incref-skipped-for-a-known-referent', _M, "    def _incref(self):\n        conn = self._Client(self._token.address, authkey=self._authkey)\n",
+     "    def _incref(self):\n        if self._id in self._idset:\n            return\n        conn = self._Client(self._token.address, authkey=self._authkey)\n", 'R20.10'),
     ('after-fork-hook-only-with-incref', _M, "        if incref:\n            self._incref()\n\n        util.register_after_fork(self, BaseProxy._after_fork)\n",
      "        if incref:\n            self._incref()\n            util.register_after_fork(self, BaseProxy._after_fork)\n", 'R20.7'),
     ('proxy-type-cached-by-name-only', _M,
